@@ -44,6 +44,9 @@ THEOREMS = [
     "SleapVerif.C11.present_stays_present",
     "SleapVerif.C11.centroid_present",
     "SleapVerif.C11.present_stays_present_centered",
+    "SleapVerif.C11.centroid_missing_iff",
+    "SleapVerif.C11.ds_missing_iff_label",
+    "SleapVerif.C11.len_eq_labelled",
     "SleapVerif.C11.present_multi_channel_nonzero",
     "SleapVerif.C11.present_centroid_channel_nonzero",
     "SleapVerif.C11.padding_rows_missing",
@@ -196,6 +199,8 @@ def gen_points(rng, n_inst, n_nodes, anchor, half_nan=True):
 def gen_labels_spec(rng):
     n_nodes = rng.choice([2, 2, 3, 4])
     n_frames = rng.choice([1, 1, 2, 3, 4])
+    half_nan = rng.random() < 0.12       # some labelled nodes carry one NaN coordinate (visible=True)
+    ill = rng.random() < 0.04            # ill-flagged: a node flagged visible with NaN stored (outside the property's domain)
     two_videos = rng.random() < 0.3
     used = set()
     frames = []
@@ -219,21 +224,34 @@ def gen_labels_spec(rng):
                 if rng.random() < 0.15:
                     x, y = float(int(x)), float(int(y))
                 miss = {"full": False, "some": rng.random() < 0.4, "empty": True, "anchorless": n == hole}[mode]
+                if not miss and half_nan and rng.random() < 0.3:
+                    x, y = (x, None) if rng.random() < 0.5 else (None, y)
                 pts.append([None, None] if miss else [x, y])     # the label as the property means it
                 if not miss:
                     raw.append([x, y, True])
+                elif ill and rng.random() < 0.6:
+                    raw.append([None, None, True])               # flagged visible, nothing stored
                 elif how == "hidden" or (how == "mix" and rng.random() < 0.5):
                     raw.append([x, y, False])                    # stored coordinates, not visible
                 else:
                     raw.append([None, None, False])
             insts.append({"kind": kind, "pts": pts, "raw": raw})
         frames.append({"frame_idx": fi, "video_idx": vi, "insts": insts})
-    return {"n_nodes": n_nodes, "n_videos": 2 if two_videos else 1, "frames": frames}
+    return {"n_nodes": n_nodes, "n_videos": 2 if two_videos else 1, "frames": frames,
+            "ill_flagged": any(p[2] and p[0] is None and p[1] is None for f in frames for i in f["insts"] for p in i["raw"])}
+
+
+def centroid_defined(spec):
+    """every non-empty instance has a labelled x and a labelled y (so its centroid is a point)"""
+    return all(any(p[0] is not None for p in i["pts"]) and any(p[1] is not None for p in i["pts"])
+               for f in spec["frames"] for i in f["insts"] if nonempty(i))
 
 
 def gen_cfg(rng, spec, kind=None):
     kind = kind or rng.choice(KINDS)
-    holes = [n for f in spec["frames"] for i in f["insts"] for n, p in enumerate(i["pts"]) if p[0] is None]
+    if kind == "centered" and (spec.get("ill_flagged") or not centroid_defined(spec)):
+        kind = rng.choice(KINDS[:3])     # the crop needs a centroid: see notes (assumption)
+    holes = [n for f in spec["frames"] for i in f["insts"] for n, p in enumerate(i["pts"]) if p[0] is None or p[1] is None]
     anchor = rng.choice([None, rng.randrange(spec["n_nodes"])] + ([rng.choice(holes)] * 2 if holes else []))
     cfg_hw = [None, None]
     if rng.random() < 0.35:       # data_config.preprocessing.max_height / max_width (take precedence, per component)
@@ -242,7 +260,8 @@ def gen_cfg(rng, spec, kind=None):
     return {"kind": kind, "user_only": rng.random() < 0.7, "max_hw": list(rng.choice(MAX_HW)), "cfg_max_hw": cfg_hw,
             "scale": rng.choice([1.0, 1.0, 0.5, 0.25]), "anchor": anchor,
             "crop_hw": list(rng.choice([(32, 32), (48, 64), (100, 100), (17, 24)])),
-            "max_stride": rng.choice([1, 16, 32]), "np_chunks": rng.random() < 0.2}
+            "max_stride": rng.choice([1, 16, 32]), "np_chunks": rng.random() < 0.2,
+            "aug": rng.random() < 0.12, "is_rgb": rng.random() < 0.2}
 
 
 def raw_of(inst):
@@ -335,9 +354,10 @@ class World:
                     inst = sio.Instance.from_numpy(arr, skel)
                 else:
                     inst = sio.PredictedInstance.from_numpy(arr, skel, point_scores=np.full(len(arr), 0.5), score=0.9)
-                for k, p in enumerate(raw):        # hide nodes that keep their stored coordinates
-                    if not p[2] and p[0] is not None:
-                        inst.points["visible"][k] = False
+                for k, p in enumerate(raw):
+                    # the stored flags are the spec's: hides nodes that keep their coordinates, keeps a node
+                    # visible whose x is NaN (from_numpy derives the flag from x alone), marks ill-flagged ones
+                    inst.points["visible"][k] = bool(p[2])
                 # sleap-io's own reading of the label must be the spec's `pts`
                 want = np.array([[np.nan if c is None else c for c in p] for p in i["pts"]], dtype="float64")
                 got = inst.numpy()
@@ -347,22 +367,30 @@ class World:
         return sio.Labels(labeled_frames=lfs, videos=videos, skeletons=[skel])
 
 
-def make_dataset(labels, cfg, chunk_dir=None):
+AUG_CONFIG = {
+    "intensity": {"uniform_noise_p": 1.0, "gaussian_noise_p": 1.0, "contrast_p": 1.0, "brightness": (0.9, 1.1),
+                  "brightness_p": 1.0},
+    "geometric": {"rotation": 15.0, "scale": (0.9, 1.1), "translate_width": 0.1, "translate_height": 0.1,
+                  "affine_p": 1.0, "erase_p": 1.0},
+}
+
+
+def make_dataset(labels, cfg, chunk_dir=None, use_existing=False):
     from omegaconf import OmegaConf
     from sleap_nn.data.custom_datasets import (BottomUpDataset, CenteredInstanceDataset, CentroidDataset,
                                                SingleInstanceDataset)
 
-    pre = {"is_rgb": False}
+    pre = {"is_rgb": bool(cfg.get("is_rgb"))}
     ch, cw = cfg.get("cfg_max_hw", [None, None])
     if ch is not None or cw is not None or cfg.get("cfg_keys_present"):
         pre["max_height"], pre["max_width"] = ch, cw
     dc = OmegaConf.create({"user_instances_only": cfg["user_only"], "preprocessing": pre,
-                           "augmentation_config": None})
+                           "augmentation_config": AUG_CONFIG if cfg.get("aug") else None})
     hc = OmegaConf.create({"sigma": CM_SIGMA, "output_stride": CM_STRIDE, "anchor_part": cfg["anchor"]})
     common = dict(labels=labels, data_config=dc, max_stride=cfg["max_stride"], scale=cfg["scale"],
-                  apply_aug=False, max_hw=tuple(cfg["max_hw"]))
+                  apply_aug=bool(cfg.get("aug")), max_hw=tuple(cfg["max_hw"]))
     if cfg.get("np_chunks"):
-        common.update(np_chunks=True, np_chunks_path=chunk_dir)
+        common.update(np_chunks=True, np_chunks_path=chunk_dir, use_existing_chunks=use_existing)
     k = cfg["kind"]
     if k == "bottomup":
         pc = OmegaConf.create({"sigma": 4, "output_stride": 4})
@@ -426,81 +454,174 @@ def peak_shortfall(chan, x, y, stride=CM_STRIDE, sigma=CM_SIGMA):
     return None if got >= want - 1e-4 else ((i, j), got, want)
 
 
-def oracle_sample(spec, cfg, row, s):
-    """missing in the labels <=> missing in the sample (+ zero confidence-map channel); no
-    invented point; the padding rows are NaN.  Returns (why | None, structural facts)."""
+def pmiss(p):
+    """a keypoint with a NaN coordinate is missing for centroid anchors and confidence maps"""
+    return p[0] is None or p[1] is None
+
+
+def expected_coords(spec, cfg, row):
+    """VALUE ORACLE, independent of the Lean model (exact rationals): what the property lets the
+    sample hold.  Frame-based classes: every labelled coordinate times the size-matching factor
+    and the input scale.  Centered class: the same, re-centred so that the centroid (anchor when
+    labelled, else the bounding-box midpoint of the labelled coordinates) sits at the crop centre
+    `((w-1)/2, (h-1)/2)`.  Returns (rows of [x, y] with None for missing, centroids or None)."""
+    f, insts = row
+    H, W = VIDEO_HW[f["video_idx"]]
+    ch, cw = cfg.get("cfg_max_hw", [None, None])
+    mh = ch if ch is not None else (cfg["max_hw"][0] if cfg["max_hw"][0] is not None else H)   # documented precedence
+    mw = cw if cw is not None else (cfg["max_hw"][1] if cfg["max_hw"][1] is not None else W)
+    eff = min(Fraction(mh, H), Fraction(mw, W)) if (mh, mw) != (H, W) else Fraction(1)
+    k = eff * Fraction(cfg["scale"])
+
+    def sc(p):
+        return [None if c is None else Fraction(c) * k for c in p]
+
+    def centroid(pts):
+        a = cfg["anchor"]
+        if a is not None and not pmiss(pts[a]):
+            return pts[a]
+        out = []
+        for d in (0, 1):
+            vs = [q[d] for q in pts if q[d] is not None]
+            out.append((max(vs) + min(vs)) / 2 if vs else None)
+        return out
+
+    rows = [[sc(p) for p in i["pts"]] for i in insts]
+    cens = [centroid(r) for r in rows]
+    if cfg["kind"] == "centered":
+        c = cens[0]
+        off = [Fraction(cfg["crop_hw"][1] - 1, 2), Fraction(cfg["crop_hw"][0] - 1, 2)]
+        rows = [[[None if (q[d] is None or c[d] is None) else q[d] - c[d] + off[d] for d in (0, 1)] for q in rows[0]]]
+        cens = [[None if c[d] is None else off[d] for d in (0, 1)]]
+    return rows, cens
+
+
+def oracle_sample(spec, cfg, row, s, aug=False):
+    """Property oracle on one returned sample (independent of the model): a coordinate missing in
+    the labels is NaN in the sample and vice versa, padding rows are NaN, zero confidence-map
+    channel for a missing node, a peak for a labelled one, and (augmentation off) every
+    coordinate has the value the labels prescribe.  Returns (why | None, structural facts)."""
     import torch
 
     f, insts = row
     nn = spec["n_nodes"]
     bad = []
     facts = {"invented_nodes": set()}
+    exp_rows, exp_cens = expected_coords(spec, cfg, row)
+
+    def coord_checks(name, got, exp, r, n):
+        """got: tensor (2,), exp: [x, y] rationals/None"""
+        for d in (0, 1):
+            g = float(got[d])
+            g_nan = g != g
+            if exp[d] is None and not g_nan:
+                bad.append(f"{name}[{r},{n}].{'xy'[d]} missing in the labels but {g} in the sample")
+                facts["invented_nodes"].add(n)
+            elif exp[d] is not None and g_nan:
+                if aug and pmiss(exp):
+                    continue      # an affine map mixes the coordinates: a half-labelled point may lose its other half
+                bad.append(f"{name}[{r},{n}].{'xy'[d]} labelled but NaN in the sample")
+            elif exp[d] is not None and not aug and (g in (float("inf"), float("-inf")) or Fraction(g) != exp[d]):
+                bad.append(f"{name}[{r},{n}].{'xy'[d]} = {g} but the labels prescribe {float(exp[d])}")
+
     if cfg["kind"] == "centered":
         got = s["instance"].reshape(-1, 2)
         cm = s["confidence_maps"][0]
-        for n, p in enumerate(insts[0]["pts"]):
-            lab_missing = p[0] is None
-            got_missing = bool(torch.isnan(got[n]).any())
-            if lab_missing and not got_missing:
-                bad.append(f"node {n} missing in the labels but {got[n].tolist()} in sample['instance']")
-                facts["invented_nodes"].add(n)
-            if not lab_missing and got_missing:
-                bad.append(f"node {n} present in the labels but NaN in the sample")
-            if lab_missing and float(cm[n].abs().max()) != 0.0:
+        if got.shape[0] != nn:
+            bad.append(f"sample['instance'] has {got.shape[0]} rows for {nn} nodes")
+        for n in range(min(nn, got.shape[0])):
+            coord_checks("instance", got[n], exp_rows[0][n], 0, n)
+            if pmiss(insts[0]["pts"][n]) and float(cm[n].abs().max()) != 0.0:
                 bad.append(f"confidence map of missing node {n} peaks at {float(cm[n].max()):.3f}")
-            if not lab_missing and not got_missing:
+            if not aug and not pmiss(insts[0]["pts"][n]) and not bool(torch.isnan(got[n]).any()):
                 sf = peak_shortfall(cm[n], float(got[n, 0]), float(got[n, 1]))
                 if sf:
                     bad.append(f"labelled node {n} has no peak in its confidence map: cell {sf[0]} = {sf[1]:.4f}, own Gaussian {sf[2]:.4f}")
-        if bool(torch.isnan(s["centroid"]).any()):
-            bad.append("centroid of a non-empty instance is NaN")
+        coord_checks("centroid", s["centroid"].reshape(-1, 2)[0], exp_cens[0], 0, 0)
     else:
         got = s["instances"].reshape(-1, nn, 2)
         k = len(insts)
         if int(s["num_instances"]) != k:
             bad.append(f"num_instances {int(s['num_instances'])} != {k} non-empty instances")
+        if got.shape[0] < k:
+            bad.append(f"sample['instances'] has {got.shape[0]} rows for {k} non-empty instances")
         for r in range(got.shape[0]):
             for n in range(nn):
-                lab_missing = r >= k or insts[r]["pts"][n][0] is None
-                got_missing = bool(torch.isnan(got[r, n]).any())
-                if lab_missing and not got_missing:
-                    bad.append(f"row {r} node {n} missing in the labels but {got[r, n].tolist()} in sample['instances']")
-                    facts["invented_nodes"].add(n)
-                if not lab_missing and got_missing:
-                    bad.append(f"row {r} node {n} present in the labels but NaN in the sample")
+                coord_checks("instances", got[r, n], exp_rows[r][n] if r < k else [None, None], r, n)
         if cfg["kind"] == "centroid":
             cen = s["centroids"].reshape(-1, 2)
             for r in range(cen.shape[0]):
-                if (r >= k) != bool(torch.isnan(cen[r]).any()):
-                    bad.append(f"centroid row {r} NaN-ness wrong")
-                elif r < k:
+                coord_checks("centroids", cen[r], exp_cens[r] if r < k else [None, None], r, 0)
+                if not aug and r < k and not bool(torch.isnan(cen[r]).any()):
                     sf = peak_shortfall(s["centroids_confidence_maps"][0][0], float(cen[r, 0]), float(cen[r, 1]))
                     if sf:
                         bad.append(f"centroid of animal {r} has no peak in the centroid map: cell {sf[0]} = {sf[1]:.4f}, own Gaussian {sf[2]:.4f}")
-        if cfg["kind"] in ("single", "bottomup"):
+        if cfg["kind"] in ("single", "bottomup") and not aug:
             cm = s["confidence_maps"][0]
             for r in range(min(k, got.shape[0])):
                 for n in range(nn):
-                    if insts[r]["pts"][n][0] is not None and not bool(torch.isnan(got[r, n]).any()):
+                    if not pmiss(insts[r]["pts"][n]) and not bool(torch.isnan(got[r, n]).any()):
                         ch = n if cfg["kind"] == "bottomup" else r * nn + n
                         if ch < cm.shape[0]:
                             sf = peak_shortfall(cm[ch], float(got[r, n, 0]), float(got[r, n, 1]))
                             if sf:
-                                others = [q for q in range(k) if q != r and insts[q]["pts"][n][0] is None]
+                                others = [q for q in range(k) if q != r and pmiss(insts[q]["pts"][n])]
                                 bad.append(f"labelled node {n} of animal {r} has no peak in channel {ch}: cell {sf[0]} = {sf[1]:.4f}, "
                                            f"own Gaussian {sf[2]:.4f}" + (f" (animals {others} lack node {n})" if others else ""))
         if cfg["kind"] == "single":
             cm = s["confidence_maps"][0]
             for r in range(min(got.shape[0], cm.shape[0] // nn)):
                 for n in range(nn):
-                    if (r >= k or insts[r]["pts"][n][0] is None) and float(cm[r * nn + n].abs().max()) != 0.0:
+                    if (r >= k or pmiss(insts[r]["pts"][n])) and float(cm[r * nn + n].abs().max()) != 0.0:
                         bad.append(f"confidence map of missing row {r} node {n} is not zero")
         if cfg["kind"] == "bottomup":
             cm = s["confidence_maps"][0]
             for n in range(nn):
-                if all(i["pts"][n][0] is None for i in insts) and float(cm[n].abs().max()) != 0.0:
+                if all(pmiss(i["pts"][n]) for i in insts) and float(cm[n].abs().max()) != 0.0:
                     bad.append(f"confidence map of node {n} (missing in every instance) is not zero")
     return ("; ".join(bad[:4]) if bad else None), facts
+
+
+def poke_sample(s, cfg):
+    """Functional-API calls on the tensors of a RETURNED sample (they alias the cache: the dict
+    copy is shallow).  Returns a description of the first tensor of the sample that changed."""
+    import torch
+    from sleap_nn.data import augmentation as aug
+    from sleap_nn.data.confidence_maps import generate_confmaps, generate_multiconfmaps
+    from sleap_nn.data.edge_maps import generate_pafs
+    from sleap_nn.data.instance_centroids import find_points_bbox_midpoint, generate_centroids
+    from sleap_nn.data.instance_cropping import generate_crops, make_centered_bboxes
+    from sleap_nn.data.resizing import apply_pad_to_stride, apply_resizer
+
+    snap = snapshot(s)
+    a = cfg["anchor"]
+    if cfg["kind"] == "centered":
+        img, pts = s["instance_image"], s["instance"]
+        hw = tuple(img.shape[-2:])
+        calls = [(generate_centroids, (pts, a)), (generate_centroids, (pts, None)), (find_points_bbox_midpoint, (pts,)),
+                 (generate_confmaps, (pts, hw)), (make_centered_bboxes, (s["centroid"][0], 8, 8)),
+                 (generate_crops, (img, pts[0], s["centroid"][0], (8, 8))), (apply_resizer, (img, pts, 0.5)),
+                 (aug.apply_intensity_augmentation, (img, pts), AUG_CONFIG["intensity"]),
+                 (aug.apply_geometric_augmentation, (img, pts), AUG_CONFIG["geometric"])]
+    else:
+        img, pts = s["image"], s["instances"]
+        hw = tuple(img.shape[-2:])
+        n = int(s["num_instances"])
+        calls = [(generate_centroids, (pts, a)), (generate_centroids, (pts, None)), (find_points_bbox_midpoint, (pts,)),
+                 (generate_confmaps, (pts, hw)), (generate_multiconfmaps, (pts, hw, n)),
+                 (generate_pafs, (pts, hw, 4, 4, torch.tensor([[0.0, 1.0]]), True)),
+                 (apply_resizer, (img, pts, 0.5)), (apply_pad_to_stride, (img, 32)),
+                 (aug.apply_intensity_augmentation, (img, pts), AUG_CONFIG["intensity"]),
+                 (aug.apply_geometric_augmentation, (img, pts), AUG_CONFIG["geometric"])]
+        if "centroids" in s:
+            calls += [(generate_multiconfmaps, (s["centroids"], hw, n, 1.5, 2, True))]
+    for c in calls:
+        kw = c[2] if len(c) > 2 else {}
+        call(c[0], *c[1], **kw)
+        why = same_sample(snap, s)
+        if why:
+            return f"{c[0].__name__} called on the tensors of a returned sample changed it ({why})"
+    return None
 
 
 def run_dataset_case(chk, world, case, m_rep, m_asis, tmp):
@@ -533,13 +654,15 @@ def _run_dataset_case(chk, world, case, m_rep, m_asis, labels, before, chunk_dir
 
     spec, cfg, seq = case["spec"], case["cfg"], case["seq"]
     npc = bool(cfg.get("np_chunks"))
+    augm = bool(cfg.get("aug"))                 # augmented reads are random: no model / first-read comparison
+    ill = bool(spec.get("ill_flagged"))         # outside the property's domain: model (as coded) is the only reference
     r = call(make_dataset, labels, cfg, chunk_dir)
     if r[0] == "raise":
         chk.disagree("Dataset construction raised where the model builds a cache", case_json(case), f"raise:{r[1]}: {r[2]}", "ok")
         chk.fail(f"C11: the dataset cannot be built from valid labels ({r[1]}: {r[2][:120]})", case_json(case), None, signatures=[])
         return
     ds = r[1]
-    rows = expected_rows(spec, cfg)
+    rows = expected_rows(spec, cfg) if not ill else [None] * m_rep["len"]
     impl_idx = ([x for p in ds.instance_idx_list for x in p] if cfg["kind"] == "centered" else list(ds.lf_idx_list))
     first, impl_reads, fails, facts_all = {}, [], [], {"invented_nodes": set()}
 
@@ -565,15 +688,21 @@ def _run_dataset_case(chk, world, case, m_rep, m_asis, labels, before, chunk_dir
         impl_reads.append(c)
         if not finite:
             fails.append(f"ds[{i}]: image / map tensors contain NaN or inf")
-        if i in first:
+        if augm:
+            first.setdefault(i, None)
+        elif i in first:
             why = same_sample(first[i], s)
             if why:
                 fails.append(f"read of index {i} differs from its first read: {why}")
         else:
             first[i] = snapshot(s)
-        if i < len(rows):
-            why, facts = oracle_sample(spec, cfg, rows[i], s)
+        if i < len(rows) and not ill:
+            why, facts = oracle_sample(spec, cfg, rows[i], s, aug=augm)
             facts_all["invented_nodes"] |= facts["invented_nodes"]
+            if why:
+                fails.append(f"ds[{i}]" + (" (augmentation on)" if augm else "") + f": {why}")
+        if case.get("poke"):          # functional-API calls on the returned tensors, between reads
+            why = poke_sample(s, cfg)
             if why:
                 fails.append(f"ds[{i}]: {why}")
     # cache and labels untouched by the reads; length
@@ -590,8 +719,11 @@ def _run_dataset_case(chk, world, case, m_rep, m_asis, labels, before, chunk_dir
 
     cache_changes("during the reads")
     # a second dataset built in the same process (train / validation) must not disturb this one
-    if case.get("bystander") and first:
-        other = call(make_dataset, world.labels(BYSTANDER_SPEC), dict(cfg, np_chunks=False, anchor=None if cfg["anchor"] is None else min(cfg["anchor"], 1)))
+    if case.get("bystander") and first and not augm:
+        # chunked datasets get a chunked bystander in its OWN directory (the documented use: train_chunks / val_chunks)
+        bdir = tempfile.mkdtemp(prefix="bystander_", dir=os.path.dirname(chunk_dir)) if npc else None
+        other = call(make_dataset, world.labels(BYSTANDER_SPEC),
+                     dict(cfg, np_chunks=npc, anchor=None if cfg["anchor"] is None else min(cfg["anchor"], 1)), bdir)
         if other[0] == "ok":
             call(other[1].__getitem__, 0)
             cache_changes("when another dataset was built")
@@ -601,9 +733,26 @@ def _run_dataset_case(chk, world, case, m_rep, m_asis, labels, before, chunk_dir
                 if why:
                     fails.append(f"ds[{i}] changed after another dataset of the same class was built: {why}")
                     break
+        if bdir:
+            shutil.rmtree(bdir, ignore_errors=True)
+    # `use_existing_chunks=True` over this dataset's own chunk directory: same length, same samples
+    if npc and not augm and first and case.get("bystander"):
+        again = call(make_dataset, world.labels(spec), cfg, chunk_dir, True)
+        if again[0] == "raise":
+            fails.append(f"use_existing_chunks=True dataset over the fresh chunks raised {again[1]}: {again[2][:100]}")
+        else:
+            if len(again[1]) != len(rows):
+                fails.append(f"use_existing_chunks=True: len = {len(again[1])} but the labels have {len(rows)} samples")
+            for i in sorted(first):
+                rr = call(again[1].__getitem__, i)
+                why = "raised" if rr[0] == "raise" else same_sample(first[i], rr[1])
+                if why:
+                    fails.append(f"use_existing_chunks=True: ds[{i}] differs from the dataset that wrote the chunks: {why}")
+                    break
+            chk.tag("use_existing_chunks")
     if npc and sorted(os.listdir(chunk_dir)) != files0:
         fails.append("chunk directory contents changed during the reads")
-    if len(ds) != len(rows):
+    if len(ds) != len(rows) and not ill:
         fails.append(f"len(dataset) = {len(ds)} but the labels have {len(rows)} non-empty "
                      + ("instances" if cfg["kind"] == "centered" else "frames"))
     dropped = 0
@@ -620,14 +769,18 @@ def _run_dataset_case(chk, world, case, m_rep, m_asis, labels, before, chunk_dir
                     fails.append("a user instance was removed from the caller's labels")
     if dropped:
         chk.tag("labels_predicted_dropped_in_place")
-    impl = {"len": len(ds), "idx": impl_idx, "reads": impl_reads}
-    model = {k: m_rep[k] for k in ("len", "idx", "reads")}
+    cmp_keys = ("len", "idx") if augm else ("len", "idx", "reads")
+    impl = {k: v for k, v in {"len": len(ds), "idx": impl_idx, "reads": impl_reads}.items() if k in cmp_keys}
+    model = {k: m_rep[k] for k in cmp_keys}
     anchor_holes = cfg["anchor"] is not None and any(
-        i["pts"][cfg["anchor"]][0] is None and nonempty(i) for f in spec["frames"] for i in filtered(f, cfg["user_only"]))
+        pmiss(i["pts"][cfg["anchor"]]) and nonempty(i) for f in spec["frames"] for i in filtered(f, cfg["user_only"]))
     tags = [cfg["kind"], "user_only" if cfg["user_only"] else "all_instances", f"scale{cfg['scale']}",
             "anchor_none" if cfg["anchor"] is None else "anchor_set"] + (["anchor_missing_somewhere"] if anchor_holes else [])
-    tags += ["np_chunks" if npc else "in_memory_cache"]
-    for _f, _ne in rows if cfg["kind"] != "centered" else []:
+    tags += ["np_chunks" if npc else "in_memory_cache"] + (["apply_aug"] if augm else []) + (["ill_flagged_labels"] if ill else []) \
+        + (["is_rgb"] if cfg.get("is_rgb") else []) + (["poke_returned_sample"] if case.get("poke") else [])
+    if any((p[0] is None) != (p[1] is None) for f in spec["frames"] for i in f["insts"] for p in i["pts"]):
+        tags.append("half_nan_keypoint")
+    for _f, _ne in rows if (cfg["kind"] != "centered" and not ill) else []:
         if len(_ne) >= 2 and any(any(i["pts"][n][0] is None for i in _ne) and any(i["pts"][n][0] is not None for i in _ne)
                                  for n in range(spec["n_nodes"])):
             tags.append("node_missing_in_one_animal_present_in_another:" + cfg["kind"])
@@ -651,7 +804,7 @@ def _run_dataset_case(chk, world, case, m_rep, m_asis, labels, before, chunk_dir
     if agree and not fails:
         return
     # classification: does the code behave exactly like the as-coded (aliasing) model on a NaN anchor?
-    as_coded = (not agree) and impl == {k: m_asis[k] for k in ("len", "idx", "reads")}
+    as_coded = (not agree) and impl == {k: m_asis[k] for k in cmp_keys}
     structural = (cfg["kind"] in ("centroid", "centered") and anchor_holes
                   and facts_all["invented_nodes"] <= {cfg["anchor"]})
     if as_coded and structural and fails:
@@ -660,7 +813,7 @@ def _run_dataset_case(chk, world, case, m_rep, m_asis, labels, before, chunk_dir
     if not agree:
         chk.disagree("Dataset.__getitem__/__len__ == Datasets.getItem/build", case_json(case),
                      {"len": impl["len"], "idx": impl_idx, "reads": reads_json(impl_reads)[:3]},
-                     {"len": model["len"], "idx": model["idx"], "reads": reads_json(model["reads"])[:3]})
+                     {"len": model["len"], "idx": model["idx"], "reads": reads_json(m_rep["reads"])[:3]})
     for w in fails[:3]:
         chk.fail("C11: " + w, case_json(case), {"impl_reads": reads_json(impl_reads)[:2]}, signatures=[])
 
@@ -676,7 +829,8 @@ def reads_json(reads):
 
 
 def case_json(case):
-    return {"spec": case["spec"], "cfg": case["cfg"], "seq": case["seq"], "bystander": bool(case.get("bystander"))}
+    return {"spec": case["spec"], "cfg": case["cfg"], "seq": case["seq"], "bystander": bool(case.get("bystander")),
+            "poke": bool(case.get("poke"))}
 
 
 # ------------------------------------------------------------------ functional API
@@ -687,8 +841,21 @@ def centroid_case(chk, case, m_rep, m_asis):
     pts, anchor, rank4 = case["points"], case["anchor"], case["rank4"]
     p = torch.tensor([[[float("nan") if c is None else c for c in q] for q in inst] for inst in pts], dtype=torch.float32)
     p = p.reshape(len(pts), len(pts[0]), 2)
-    if rank4:
+    layout = case.get("layout") or ("rank4" if rank4 else "rank3")
+    base = None
+    if layout == "rank4":
         p = p.unsqueeze(0)
+    elif layout == "rank5":
+        p = p.unsqueeze(0).unsqueeze(0)
+    elif layout == "rank2" and len(pts) == 1:
+        p = p[0]
+    elif layout == "strided":            # non-contiguous view into a larger tensor (every other node of the base)
+        base = torch.full((len(pts), 2 * len(pts[0]), 2), 7.0)
+        base[:, ::2] = p
+        p = base[:, ::2]
+    elif layout == "expanded" and all(q == pts[0] for q in pts):
+        p = p[:1].expand(len(pts), len(pts[0]), 2)   # stride-0 batch dimension
+    base0 = None if base is None else base.clone()
     p0 = p.clone()
     r = call(generate_centroids, p, anchor)
     if r[0] == "raise":
@@ -696,11 +863,12 @@ def centroid_case(chk, case, m_rep, m_asis):
         return
     impl = {"c": pts_of(r[1]), "in": pts_of(p)}
     anchor_nan = anchor is not None and any(q[anchor][0] is None or q[anchor][1] is None for q in pts)
-    tags = ["cen", "cen_anchor_none" if anchor is None else "cen_anchor_set"] + (["cen_anchor_nan"] if anchor_nan else [])
+    tags = ["cen", "cen_anchor_none" if anchor is None else "cen_anchor_set", "cen_layout:" + layout] \
+        + (["cen_anchor_nan"] if anchor_nan else [])
     chk.case(("cen", anchor, str(pts)), {"points": pts, "anchor": anchor, "impl": pts_json(impl["c"])}, tags)
     # oracle: input untouched; value = anchor when fully present else per-coordinate bbox midpoint
     why = None
-    if not same(p, p0):
+    if not same(p, p0) or (base is not None and not same(base, base0)):
         why = "generate_centroids modified its `points` argument"
     else:
         for inst, c in zip(pts, impl["c"]):
@@ -758,7 +926,13 @@ def helper_purity(chk, rng, n):
         img = torch.rand((1, C, H, W), generator=g)
         img8 = (torch.rand((1, C, H, W), generator=g) * 255).to(torch.uint8)
         inst4 = T(pts).unsqueeze(0) * 0.3          # (1, n_inst, nn, 2) inside the small image
-        inst3 = inst4[:, 0].clone()                 # (1, nn, 2)
+        if it % 3 == 1:                             # non-contiguous view into a larger tensor
+            big = torch.full((1, n_inst, 2 * nn, 2), 3.0)
+            big[:, :, ::2] = inst4
+            inst4 = big[:, :, ::2]
+        elif it % 3 == 2 and n_inst > 1:            # stride-0 (expanded) instance dimension
+            inst4 = inst4[:, :1].expand(1, n_inst, nn, 2)
+        inst3 = inst4[:, 0] if it % 2 else inst4[:, 0].clone()   # (1, nn, 2): a view of inst4 or its own storage
         cen = torch.tensor([lattice(rng, 4, W - 4), lattice(rng, 4, H - 4)], dtype=torch.float32)
         edges = torch.tensor([[i, i + 1] for i in range(nn - 1)], dtype=torch.float32)
         calls = [
@@ -788,8 +962,12 @@ def helper_purity(chk, rng, n):
             r = call(fn, *args, **kw)
             chk.case(("pure", name, it) if it < 3 else None, None, ["pure:" + name])
             if r[0] == "raise":
-                chk.disagree(f"{name} is a pure op in the model", {"fn": name}, f"raise:{r[1]}: {r[2]}", "ok")
-                continue
+                if it % 3 != 0 and "view size is not compatible" in r[2]:
+                    # `.view` on a non-contiguous keypoint tensor: refuses the input, alters nothing (checked below)
+                    chk.tag("refuses_noncontiguous_input:" + name)
+                else:
+                    chk.disagree(f"{name} is a pure op in the model", {"fn": name}, f"raise:{r[1]}: {r[2]}", "ok")
+                    continue
             for where, a, a0 in tens:
                 if not same(a, a0):
                     case = {"fn": name, "argument": where, "before": a0.tolist(), "kwargs": {k: str(v) for k, v in kw.items()}}
@@ -878,14 +1056,60 @@ def multi_confmap_cases(chk, rng, n):
 
 
 # ------------------------------------------------------------------ known finding replay
+F_C11_WITNESS = {"points": [[[None, None], [4.0, 8.0]], [[1.0, 2.0], [3.0, 4.0]]], "anchor_ind": 0,
+                 "dataset": {"kind": "centered", "anchor_part": 1, "crop_hw": [100, 100],
+                             "frame": [[[92.5, 202.75], [None, None]], [[205.0, 187.0], [278.5, 203.25]]]}}
+
+
+def probes(chk, world, tmp):
+    """Behaviour OUTSIDE the stated domain, measured on every run and recorded in the evidence
+    (never a verdict): what the assumptions in notes/C11.md exclude."""
+    import numpy as np
+    import torch
+
+    out = {}
+    spec_a = {"n_nodes": 2, "n_videos": 1, "frames": [
+        {"frame_idx": 0, "video_idx": 0, "insts": [{"kind": "user", "pts": [[10.0, 12.0], [30.5, 20.25]]}]},
+        {"frame_idx": 2, "video_idx": 0, "insts": [{"kind": "user", "pts": [[40.0, 50.0], [60.0, 70.5]]}]}]}
+    cfg = {"kind": "single", "user_only": True, "max_hw": [None, None], "scale": 1.0, "anchor": None,
+           "crop_hw": [32, 32], "max_stride": 16, "np_chunks": True}
+    # (a) two chunked datasets sharing ONE directory overwrite each other's sample_<i>.npz
+    d = tempfile.mkdtemp(prefix="shared_", dir=tmp)
+    a = make_dataset(world.labels(spec_a), cfg, d)
+    a0 = snapshot(a[0])
+    make_dataset(world.labels(BYSTANDER_SPEC), cfg, d)
+    out["shared_chunk_dir_second_dataset_overwrites_first"] = same_sample(a0, a[0]) is not None
+    shutil.rmtree(d, ignore_errors=True)
+    # (b) use_existing_chunks=True counts every .npz of the directory
+    d = tempfile.mkdtemp(prefix="stray_", dir=tmp)
+    make_dataset(world.labels(spec_a), cfg, d)
+    np.savez_compressed(os.path.join(d, "zzz_other.npz"), x=np.zeros(1))
+    out["use_existing_chunks_len_with_a_stray_npz"] = [len(make_dataset(world.labels(spec_a), cfg, d, True)), 2]
+    shutil.rmtree(d, ignore_errors=True)
+    # (c) ill-flagged instance (flagged visible, NaN stored): `is_empty` is False
+    ill = {"n_nodes": 2, "n_videos": 1, "frames": [{"frame_idx": 0, "video_idx": 0, "insts": [
+        {"kind": "user", "pts": [[None, None], [None, None]], "raw": [[None, None, True], [None, None, True]]},
+        {"kind": "user", "pts": [[10.0, 12.0], [30.5, 20.25]]}]}]}
+    bu = make_dataset(world.labels(ill), dict(cfg, kind="bottomup", np_chunks=False))
+    out["ill_flagged_instance_counted_in_num_instances"] = int(bu[0]["num_instances"])
+    ce = call(make_dataset, world.labels(ill), dict(cfg, kind="centered", np_chunks=False, anchor=0))
+    if ce[0] == "ok":
+        s0 = call(ce[1].__getitem__, 0)
+        out["ill_flagged_centered"] = {"len": len(ce[1]), "sample0_image_finite":
+                                       (bool(torch.isfinite(s0[1]["instance_image"]).all()) if s0[0] == "ok" else f"raise:{s0[1]}")}
+    else:
+        out["ill_flagged_centered"] = f"raise:{ce[1]}"
+    chk.extra["outside_domain_probes"] = out
+
+
 def replay_known(chk, world):
     import torch
     from sleap_nn.data.instance_centroids import generate_centroids
 
     ent = next((f for f in chk.known if f["id"] == "F-C11"), None)
-    if ent is None:
-        return
-    w = ent["witness"]
+    if ent is None:      # never silently: replay the built-in witness as a plain regression
+        print("NOTE: F-C11 is missing from KNOWN_FINDINGS.json; replaying the built-in witness as a regression")
+    w = ent["witness"] if ent is not None else F_C11_WITNESS
     p = torch.tensor([[[float("nan") if c is None else c for c in q] for q in i] for i in w["points"]])
     p0 = p.clone()
     generate_centroids(p, w["anchor_ind"])
@@ -899,8 +1123,13 @@ def replay_known(chk, world):
     s = ds[0]
     inv = not bool(torch.isnan(s["instance"][0, d["anchor_part"]]).any())
     bump = float(s["confidence_maps"][0, d["anchor_part"]].max())
-    chk.known_replay("F-C11", still_fails=fn_fails or inv,
-                     detail=f"input modified={fn_fails}; dataset sample keeps node missing={not inv}, cm max={bump:.3f}")
+    if ent is not None:
+        chk.known_replay("F-C11", still_fails=fn_fails or inv,
+                         detail=f"input modified={fn_fails}; dataset sample keeps node missing={not inv}, cm max={bump:.3f}")
+    elif fn_fails or inv:
+        chk.fail("regression of F-C11 (entry missing from KNOWN_FINDINGS.json): generate_centroids writes the bbox midpoint "
+                 "into its input through the anchor view", F_C11_WITNESS, {"input_modified": fn_fails, "invented_keypoint": inv}, ())
+    chk.extra["F-C11_entry_present"] = ent is not None
     chk.extra["F-C11_replay"] = {"input_modified": fn_fails, "dataset_invented_keypoint": inv, "confmap_peak": bump}
 
 
@@ -915,6 +1144,7 @@ def main(chk: Check):
     try:
         world = World(tmp)
         replay_known(chk, world)
+        probes(chk, world, tmp)
 
         # ---- functional API: generate_centroids vs the heap model
         cen_cases = [{"points": [[[None, None], [4.0, 8.0]], [[1.0, 2.0], [3.0, 4.0]]], "anchor": 0, "rank4": False},
@@ -923,8 +1153,12 @@ def main(chk: Check):
         for _ in range(chk.n(1200, 12000)):
             nn = rng.choice([1, 2, 3, 4, 5])
             anchor = rng.choice([None] + list(range(nn)) * 2)
-            cen_cases.append({"points": gen_points(rng, rng.choice([1, 1, 2, 3, 4]), nn, anchor if anchor is not None else 0),
-                              "anchor": anchor, "rank4": rng.random() < 0.5})
+            layout = rng.choice(["rank3", "rank3", "rank4", "rank4", "rank5", "rank2", "strided", "expanded"])
+            pts = gen_points(rng, 1 if layout in ("rank2", "expanded") else rng.choice([1, 1, 2, 3, 4]), nn,
+                             anchor if anchor is not None else 0)
+            if layout == "expanded":
+                pts = pts * rng.choice([2, 3])
+            cen_cases.append({"points": pts, "anchor": anchor, "rank4": layout == "rank4", "layout": layout})
         lines = []
         for c in cen_cases:
             body = f"{-1 if c['anchor'] is None else c['anchor']} {len(c['points'])} {len(c['points'][0])} " \
@@ -957,7 +1191,8 @@ def main(chk: Check):
             seq = [rng.randrange(n) for _ in range(rng.choice([2, 4, 2 * n + 2]))] if n else []
             if rng.random() < 0.15:
                 seq.insert(rng.randrange(len(seq) + 1), n + rng.randrange(3))   # KeyError index
-            ds_cases.append({"spec": spec, "cfg": cfg, "seq": seq, "bystander": rng.random() < 0.25})
+            ds_cases.append({"spec": spec, "cfg": cfg, "seq": seq, "bystander": rng.random() < 0.25,
+                             "poke": rng.random() < 0.25})
         lines = []
         for c in ds_cases:
             lines += [ds_line(1, c["spec"], c["cfg"], c["seq"]), ds_line(0, c["spec"], c["cfg"], c["seq"])]
@@ -1015,7 +1250,13 @@ if __name__ == "__main__":
                      "dataset-level labels use whole-point NaN only (half-NaN points are covered at generate_centroids level)",
                      "labels are well-flagged (a node flagged visible stores coordinates), as sleap-io's constructors guarantee; "
                      "a keypoint is missing iff not visible or NaN (Instance.numpy())",
-                     "augmentation off for the determinism clause (apply_aug=False); augmentation functions are covered by the purity check",
+                     "augmentation off for the determinism and value clauses; a 12 % slice of datasets runs with apply_aug=True "
+                     "(all intensity and geometric sub-augmentations at p=1): cache unchanged, label NaN => sample NaN, zero channel, labels untouched",
+                     "a chunk directory holds only the chunks of the dataset that wrote it (two chunked datasets sharing a directory "
+                     "overwrite each other; use_existing_chunks=True counts every .npz of the directory) — measured each run in outside_domain_probes",
+                     "ill-flagged labels (a node flagged visible with NaN stored) are outside the domain: compared with the model (as coded) for the "
+                     "frame-based classes only; the centered class then returns a non-finite crop (outside_domain_probes)",
+                     "the centered class needs a centroid: every non-empty instance has a labelled x and a labelled y",
                      "np_chunks=True cases use a scratch chunk directory (fresh chunks, use_existing_chunks=False)"],
     )
     run_check(chk, main, replay)
